@@ -9,7 +9,7 @@ PID = "C07"
 ANCHORS = ["pyoma2.functions.fdd:EFDD_mpe", "pyoma2.functions.fdd:SDOF_bellandMS", "pyoma2.functions.fdd:FDD_mpe", "pyoma2.algorithms.fdd:EFDD.mpe"]
 REQUIRED_MONITORS = ["truth@EFDD_mpe(EFDD)", "truth@EFDD_mpe(FSDD)", "scale-invariance(EFDD)", "scale-invariance(FSDD)", "truth@EFDD.mpe(class)", "truth@FSDD.mpe(class)"]
 ALL_STATES = [f"nxseg={n}" for n in (1024, 2048, 4096, 8192)] + ["xi<3%", "xi>4%", "fn<0.08fs", "fn>0.2fs", "bandwidth<6 lines", "same array object analysed twice with different content"]
-REQUIRED_STATES = ["nxseg=1024", "nxseg=2048", "nxseg=4096", "xi<3%", "xi>4%", "same array object analysed twice with different content", "Fortran-ordered spectral matrix"]
+REQUIRED_STATES = ["nxseg=1024", "nxseg=2048", "nxseg=4096", "xi<3%", "xi>4%", "same array object analysed twice with different content", "Fortran-ordered spectral matrix", "pick given as an integer", "class created with the default estimator"]
 RULE = ("exactly the quantifier's class: analytic SDOF spectral density |H(f)|^2 phi phi^T + 1e-9 full-rank floor on the grid k fs/nxseg, fn in "
         "[0.04,0.25] fs, xi in [2,5] %, half-power bandwidth >= 4 lines, >= 30 periods in the half record, 2..6 channels, real shapes, "
         "DF2 in [4,10] bandwidths, default sppk/npmax/MAClim; oracle = the statement's numbers (MAC >= 0.999, 2.5 % frequency, 15 % damping) "
@@ -40,6 +40,8 @@ def draw(rng, nxs=(1024, 2048, 4096, 8192)):
         fs = float(10 ** rng.uniform(0, 3))
         nch = int(rng.integers(2, 7))
         fn = float(rng.uniform(0.04, 0.25) * fs)
+        if fs >= 30 and rng.random() < 0.25:
+            fn = float(max(1, round(fn)))  # a whole number of Hz (a user then types the pick as an integer)
         xi = float(rng.uniform(0.02, 0.05))
         df = fs / nxseg
         bw = 2 * xi * fn
@@ -100,7 +102,10 @@ def run_function(ctx, rng):
         ctx.state("Fortran-ordered spectral matrix")
     for method in ("EFDD", "FSDD"):
         Sc = S.copy()
-        Fn, Xi, Phi, _ = fdd.EFDD_mpe(S, freq, 1 / fs, [fn], "per", method=method, DF1=DF1, DF2=DF2)
+        pick = [int(fn)] if (float(fn).is_integer() and rng.random() < 0.7) else [fn]
+        if isinstance(pick[0], int):
+            ctx.state("pick given as an integer")
+        Fn, Xi, Phi, _ = fdd.EFDD_mpe(S, freq, 1 / fs, pick, "per", method=method, DF1=DF1, DF2=DF2)
         ctx.check(np.array_equal(S, Sc), "inputs_modified", "EFDD_mpe modified the spectral matrix")
         judge(ctx, f"truth@EFDD_mpe({method})", f"{method}", Fn, Xi, Phi, fn, xi, phi, info)
         Fn2, Xi2, Phi2, _ = fdd.EFDD_mpe(S * c, freq, 1 / fs, [fn], "per", method=method, DF1=DF1, DF2=DF2)
@@ -152,12 +157,15 @@ def run_classes(ctx, rng):
     data = rng.standard_normal((nxseg * 2, nch))
     with probes.patched(F_, "SD_est", fake_sd_est):
         ss = SingleSetup(data, fs)
-        e = EFDD(name="efdd", nxseg=nxseg, method_SD="per")
-        f = FSDD(name="fsdd", nxseg=nxseg, method_SD="per")
+        kw_sd = {} if rng.random() < 0.5 else dict(method_SD="per")  # the estimator spelled out, or left at the documented default (the same)
+        if not kw_sd:
+            ctx.state("class created with the default estimator")
+        e = EFDD(name="efdd", nxseg=nxseg, **kw_sd)
+        f = FSDD(name="fsdd", nxseg=nxseg, **kw_sd)
         ss.add_algorithms(e, f)
         ss.run_all()
     for alg, method in ((e, "EFDD"), (f, "FSDD")):
-        ss.mpe(alg.name, sel_freq=[fn], DF1=DF1, DF2=DF2)
+        ss.mpe(alg.name, sel_freq=([int(fn)] if float(fn).is_integer() else [fn]), DF1=DF1, DF2=DF2)
         r = alg.result
         judge(ctx, f"truth@{method}.mpe(class)", f"{method}_cls", r.Fn, r.Xi, r.Phi, fn, xi, phi, info)
     states(ctx, nxseg, fs, fn, xi, df, bw)
